@@ -77,28 +77,41 @@ pub(crate) fn process<'t>(name: &'t str, regs: Vec<N>, args: Vec<R>) -> Result<'
     if let Some(&arg) = args.iter().find(|arg| !arg.is_finite()) {
         return Err(Error::NonFiniteArgument(name, arg));
     }
-    match name {
-        s if s.starts_with(['c', 'C']) => {
-            let (&ctrl, regs) = regs.split_first().ok_or(Error::WrongRegNumber(name, 0))?;
+    // every leading `c` takes one more operand as a control; they are peeled off in a loop (a name may carry
+    // hundreds of them) and put on again, innermost first, once the remaining gate is built
+    let depth = name.bytes().take_while(|b| matches!(b, b'c' | b'C')).count();
+    if regs.len() < depth {
+        return Err(Error::WrongRegNumber(name, regs.len()));
+    }
+    let (ctrls, regs) = regs.split_at(depth);
+    let stem = &name[depth..];
 
-            // a controlled `u1` is a controlled phase shift diag(1,1,1,e^{i lambda}), not a controlled `rz`
-            let op = match &name[1..] {
-                stem @ ("u1" | "U1") => gate!(stem, r(1), phase_shift, regs.to_vec(), args),
-                stem => process(stem, regs.into(), args),
-            };
-            match op {
-                Ok(op) => {
-                    let act = op.act_on();
-                    op.c(ctrl).ok_or(Error::InvalidControlMask(ctrl, act))
-                }
-                Err(err) => Err(match err {
-                    Error::WrongRegNumber(_, num) => Error::WrongRegNumber(name, 1 + num),
-                    Error::WrongArgNumber(_, num) => Error::WrongArgNumber(name, num),
-                    Error::UnknownGate(_) => Error::UnknownGate(name),
-                    e => e,
-                }),
+    // a controlled `u1` is a controlled phase shift diag(1,1,1,e^{i lambda}), not a controlled `rz`
+    let mut op = match stem {
+        "u1" | "U1" if depth > 0 => gate!(stem, r(1), phase_shift, regs.to_vec(), args),
+        stem => primitive(stem, regs.to_vec(), args),
+    };
+    for (level, &ctrl) in ctrls.iter().enumerate().rev() {
+        let name = &name[level..];
+        op = match op {
+            Ok(op) => {
+                let act = op.act_on();
+                op.c(ctrl).ok_or(Error::InvalidControlMask(ctrl, act))
             }
-        }
+            Err(err) => Err(match err {
+                Error::WrongRegNumber(_, num) => Error::WrongRegNumber(name, 1 + num),
+                Error::WrongArgNumber(_, num) => Error::WrongArgNumber(name, num),
+                Error::UnknownGate(_) => Error::UnknownGate(name),
+                e => e,
+            }),
+        };
+    }
+    op
+}
+
+/// The gates that take no control prefix.
+fn primitive<'t>(name: &'t str, regs: Vec<N>, args: Vec<R>) -> Result<'t, MultiOp> {
+    match name {
         "x" | "X" => gate!(name, any, x, regs, args),
         "y" | "Y" => gate!(name, any, y, regs, args),
         "z" | "Z" => gate!(name, any, z, regs, args),
